@@ -106,6 +106,12 @@ impl Prop for P {
             runs.push(("flat, ignore-adler, trailer cut", BufMode::Flat { cap: n + 1 }, zf | TINFL_FLAG_IGNORE_ADLER32, &cut_sched));
             runs.push(("ring32k, ignore-adler, trailer cut", BufMode::Ring { bits: 15, start: case.ring_start, fill_seed: case.fill_seed }, zf | TINFL_FLAG_IGNORE_ADLER32, &cut_sched));
         }
+        if !t.zlib {
+            // raw stream with "compute the Adler-32 anyway" (documented as allowed): there is still no trailer
+            cx.class("raw:also-compute-adler-flag");
+            runs.push(("flat, raw + COMPUTE_ADLER32", BufMode::Flat { cap: n + 1 }, zf | TINFL_FLAG_COMPUTE_ADLER32, &case.sched));
+            runs.push(("ring32k, raw + COMPUTE_ADLER32", BufMode::Ring { bits: 15, start: case.ring_start, fill_seed: case.fill_seed }, zf | TINFL_FLAG_COMPUTE_ADLER32, &cut_sched));
+        }
         for (what, mode, zf, sched) in runs {
             let mut d = DecompressorOxide::new();
             let r = drive(&mut d, &data, &DriveOpts { flags: zf, mode, sched, canary: false, max_calls: None, announce: true, flat_start: 0, probe_full_ring: false }, plain_hook)?;
